@@ -19,7 +19,7 @@ CFG = {
         "Swat4.C14.refreshed_not_scanned",
         "Swat4.C14.clean_instances_count",
     ],
-    "shards": (1, 16),
+    "shards": (4, 16),
     "nontrivial": _nontrivial,
     "rule": "(seq) histories of 3..20 real use-case executions over 4 servers (report, keepalive, probe success/failure, list with the master "
             "status, server cleanup, instance cleanup) with clock steps landing at a liveness/retention boundary and +-256ns, liveness and retention "
